@@ -199,6 +199,15 @@ def check(run):
         o = Opt(r, u, i, fs)
         objs.append(o)
         desc = {'recursive': r, 'user_requested': u, 'internal_convert_user_code': i, 'optional_features': [f.name for f in fs]}
+        try:
+            _per_value(run, converter, parser, ag, Opt, feats, o, r, u, i, fs, desc)
+        except Exception as e:      # noqa — an operation of the real class raising is a failing input, not a harness error
+            run.fail('an operation on a valid options value raised %s: %s' % (type(e).__name__, str(e)[:120]), desc)
+    _after_values(run, converter, parser, ag, Opt, feats, values, objs)
+
+
+def _per_value(run, converter, parser, ag, Opt, feats, o, r, u, i, fs, desc):
+        src = None
         nontriv = bool(fs) or (r, u, i) != (True, False, True)
         # constructor normalisation
         for kind, spv in spellings(fs):
@@ -233,6 +242,31 @@ def check(run):
                 run.fail('uses(%s) wrong' % f.name, dict(desc, feature=f.name))
         if len(run.samples) < 3 and len(fs) == 2 and u:
             run.sample({'value': desc, 'to_ast': src, 'call_options': canon(c)})
+
+
+def _safe(thunk, default=None):
+    try:
+        return thunk()
+    except Exception as e:      # noqa
+        return ('raised', type(e).__name__)
+
+
+def _after_values(run, converter, parser, ag, Opt, feats, values, objs):
+    try:
+        _after_values_inner(run, converter, parser, ag, Opt, feats, values, objs)
+    except common.InfraError:
+        raise
+    except Exception as e:      # noqa
+        import traceback
+        tb = traceback.extract_tb(e.__traceback__)
+        where = [f for f in tb if 'malt' in f.filename and 'harness' not in f.filename]
+        if not where:
+            raise
+        run.fail('an operation on valid options values raised %s: %s (at %s:%s)' % (type(e).__name__, str(e)[:120], where[-1].name, where[-1].lineno),
+                 {'where': '%s:%d' % (where[-1].filename.split('/malt/')[-1], where[-1].lineno), 'exception': type(e).__name__})
+
+
+def _after_values_inner(run, converter, parser, ag, Opt, feats, values, objs):
     # eq / hash over all pairs
     keys = [(r, u, i, frozenset(fs)) for r, u, i, fs in values]
     npairs = 0
